@@ -27,53 +27,103 @@ theorem get_cons_ne (h : String) (x : String × PV) (rest : List (String × PV))
   have : (x.1 == name) = false := by simpa using hne
   simp [List.find?_cons, this]
 
-/-- discovery: every calendar arrives as the backend holds it -/
-theorem C10_calendar (k : Codecs D) (hk : k.OK) (c : Calendar) : calendarOf k (calendarResp k c) = .ok (some c.seen) := by
+/-- discovery: every calendar arrives as the backend holds it.  The hypotheses are the round trips of THIS value's
+    path and size only (theorems of C16 for paths and sizes in their stated domains) -/
+theorem C10_calendar_at (k : Codecs D) (c : Calendar)
+    (hh : k.unescHref (k.escHref c.path) = some c.path)
+    (hi : c.maxResourceSize > 0 → k.parseInt (k.fmtInt c.maxResourceSize) = some c.maxResourceSize) :
+    calendarOf k (calendarResp k c) = .ok (some c.seen) := by
   obtain ⟨path, name, desc, size, comps⟩ := c
+  simp only at hh hi
   unfold calendarOf calendarResp Calendar.seen
-  simp only [hk.href]
-  have hrt : ∀ rest, (⟨k.escHref path, ("resourcetype", PV.names ["collection", "calendar"]) :: rest⟩ : WResp).get "resourcetype"
-      = some (.names ["collection", "calendar"]) := by intro rest; simp [WResp.get]
+  simp only [hh]
   by_cases hn : name = "" <;> by_cases hs : size > 0 <;>
-    simp [opt, hn, hs, WResp.get, optText, sizeOf?, hk.int, List.find?_cons] <;> omega
+    simp [opt, hn, hs, WResp.get, optText, sizeOf?, hi, List.find?_cons] <;> omega
+
+theorem C10_calendar (k : Codecs D) (hk : k.OK) (c : Calendar) : calendarOf k (calendarResp k c) = .ok (some c.seen) :=
+  C10_calendar_at k c (hk.href _) (fun _ => hk.int _)
 
 /-- discovery: every address book arrives as the backend holds it -/
-theorem C10_addressBook (k : Codecs D) (hk : k.OK) (b : AddressBook) : bookOf k (bookResp k b) = .ok (some b.seen) := by
+theorem C10_addressBook_at (k : Codecs D) (b : AddressBook)
+    (hh : k.unescHref (k.escHref b.path) = some b.path)
+    (hi : b.maxResourceSize > 0 → k.parseInt (k.fmtInt b.maxResourceSize) = some b.maxResourceSize) :
+    bookOf k (bookResp k b) = .ok (some b.seen) := by
   obtain ⟨path, name, desc, size⟩ := b
+  simp only at hh hi
   unfold bookOf bookResp AddressBook.seen
-  simp only [hk.href]
+  simp only [hh]
   by_cases hn : name = "" <;> by_cases hd : desc = "" <;> by_cases hs : size > 0 <;>
-    simp [opt, hn, hd, hs, WResp.get, optText, sizeOf?, hk.int, List.find?_cons] <;> omega
+    simp [opt, hn, hd, hs, WResp.get, optText, sizeOf?, hi, List.find?_cons] <;> omega
+
+theorem C10_addressBook (k : Codecs D) (hk : k.OK) (b : AddressBook) : bookOf k (bookResp k b) = .ok (some b.seen) :=
+  C10_addressBook_at k b (hk.href _) (fun _ => hk.int _)
 
 /-- Query / MultiGet / Sync: every object arrives with its path, modification time, entity tag and content -/
-theorem C10_object (k : Codecs D) (hk : k.OK) (dataName : String)
-    (hd : dataName ≠ "getcontentlength" ∧ dataName ≠ "getlastmodified" ∧ dataName ≠ "getetag") (o : Obj D) :
+theorem C10_object_at (k : Codecs D) (dataName : String)
+    (hd : dataName ≠ "getcontentlength" ∧ dataName ≠ "getlastmodified" ∧ dataName ≠ "getetag") (o : Obj D)
+    (hh : k.unescHref (k.escHref o.path) = some o.path)
+    (ht : k.unquoteTag (k.quoteTag o.etag) = some o.etag)
+    (hm : ∀ t, o.modTime = some t → k.parseDate (k.fmtDate t) = some t)
+    (hdat : k.decData (k.encData o.data) = some o.data) :
     objOf k dataName (objResp k dataName o) = .ok o.seenInReport := by
   obtain ⟨path, mod, len, etag, data⟩ := o
   obtain ⟨h1, h2, h3⟩ := hd
+  simp only at hh ht hm hdat
   have e1 : (dataName == "getcontentlength") = false := by simpa using h1
   have e2 : (dataName == "getlastmodified") = false := by simpa using h2
   have e3 : (dataName == "getetag") = false := by simpa using h3
   unfold objOf objResp Obj.seenInReport
-  simp only [hk.href]
-  cases mod <;> by_cases he : etag = "" <;>
-    simp [opt, he, WResp.get, sizeOf?, hk.int, hk.data, hk.date, hk.tag, List.find?_cons, e1, e2, e3]
+  simp only [hh]
+  cases mod with
+  | none => by_cases he : etag = "" <;>
+      simp [opt, he, WResp.get, sizeOf?, hdat, ht, List.find?_cons, e1, e2, e3]
+  | some t =>
+    have hmt := hm t rfl
+    by_cases he : etag = "" <;>
+      simp [opt, he, WResp.get, sizeOf?, hdat, hmt, ht, List.find?_cons, e1, e2, e3]
+
+theorem C10_object (k : Codecs D) (hk : k.OK) (dataName : String)
+    (hd : dataName ≠ "getcontentlength" ∧ dataName ≠ "getlastmodified" ∧ dataName ≠ "getetag") (o : Obj D) :
+    objOf k dataName (objResp k dataName o) = .ok o.seenInReport :=
+  C10_object_at k dataName hd o (hk.href _) (hk.tag _) (fun _ _ => hk.date _) (hk.data _)
 
 /-- GET: the headers carry entity tag, size and modification time back; the path is the one asked for -/
-theorem C10_get (k : Codecs D) (hk : k.OK) (o : Obj D) :
+theorem C10_get_at (k : Codecs D) (o : Obj D)
+    (ht : k.unquoteTag (k.quoteTag o.etag) = some o.etag)
+    (hm : ∀ t, o.modTime = some t → k.parseDate (k.fmtDate t) = some t)
+    (hi : o.contentLength > 0 → k.parseInt (k.fmtInt o.contentLength) = some o.contentLength) :
     populate k o.path o.data (getHeaders k o) = .ok o.seen := by
   obtain ⟨path, mod, len, etag, data⟩ := o
+  simp only at ht hm hi
   unfold populate getHeaders Obj.seen
-  cases mod <;> by_cases hl : len > 0 <;> by_cases he : etag = "" <;>
-    simp [hl, he, hk.int, hk.date, hk.tag]
+  cases mod with
+  | none => by_cases hl : len > 0 <;> by_cases he : etag = "" <;> simp [hl, he, hi, ht]
+  | some t =>
+    have hmt := hm t rfl
+    by_cases hl : len > 0 <;> by_cases he : etag = "" <;> simp [hl, he, hi, hmt, ht]
+
+theorem C10_get (k : Codecs D) (hk : k.OK) (o : Obj D) :
+    populate k o.path o.data (getHeaders k o) = .ok o.seen :=
+  C10_get_at k o (hk.tag _) (fun _ _ => hk.date _) (fun _ => hk.int _)
 
 /-- PUT: the backend's path (whatever characters it has), entity tag and modification time come back to the caller -/
-theorem C10_put (k : Codecs D) (hk : k.OK) (reqPath : String) (sent : D) (res : Obj D) (hp : res.path ≠ "") :
+theorem C10_put_at (k : Codecs D) (reqPath : String) (sent : D) (res : Obj D) (hp : res.path ≠ "")
+    (hh : k.unescHref (k.escHref res.path) = some res.path)
+    (ht : k.unquoteTag (k.quoteTag res.etag) = some res.etag)
+    (hm : ∀ t, res.modTime = some t → k.parseDate (k.fmtDate t) = some t) :
     populate k reqPath sent (putHeaders k res) = .ok ⟨res.path, res.modTime, 0, res.etag, sent⟩ := by
   obtain ⟨path, mod, len, etag, data⟩ := res
-  simp only at hp
+  simp only at hp hh ht hm
   unfold populate putHeaders
-  cases mod <;> by_cases he : etag = "" <;> simp [hp, he, hk.href, hk.date, hk.tag]
+  cases mod with
+  | none => by_cases he : etag = "" <;> simp [hp, he, hh, ht]
+  | some t =>
+    have hmt := hm t rfl
+    by_cases he : etag = "" <;> simp [hp, he, hh, hmt, ht]
+
+theorem C10_put (k : Codecs D) (hk : k.OK) (reqPath : String) (sent : D) (res : Obj D) (hp : res.path ≠ "") :
+    populate k reqPath sent (putHeaders k res) = .ok ⟨res.path, res.modTime, 0, res.etag, sent⟩ :=
+  C10_put_at k reqPath sent res hp (hk.href _) (hk.tag _) (fun _ _ => hk.date _)
 
 /-- multiget: every requested href is answered exactly once and in request order, whatever the backend says -/
 theorem C10_multiget_accounting (backend : String → Except (Option Nat) (Obj D)) (hrefs : List String) :
